@@ -127,6 +127,8 @@ class Rational(primitives.Expression):
     def __pow__(self, other):
         return Rational(self.Denominator**other, self.Numerator**other)
 
+    init_arg_names = ("Numerator", "Denominator")
+
     def __getinitargs__(self):
         return (self.Numerator, self.Denominator)
 
